@@ -252,7 +252,7 @@ def chainFile : File :=
   ⟨"c.exp",
    [⟨"design", 0, [], [⟨.use, "catalogue", 1, some [⟨"point", none, 1⟩]⟩], none⟩,
     ⟨"catalogue", 5, [], [⟨.use, "geometry", 6, some [⟨"point", none, 6⟩]⟩], none⟩,
-    ⟨"geometry", 9, [.entity ⟨"point", 10, [], [], [], [], []⟩], [], none⟩], []⟩
+    ⟨"geometry", 9, [.entity ⟨"point", 10, [], [], [], [], [], false⟩], [], none⟩], []⟩
 
 /-- without the fall-back scan the chained import resolves only when the re-exporting schema was visited first -/
 theorem C04_import_order_witness :
@@ -288,22 +288,24 @@ theorem C04_super_sub_iff (path : String) (env : Env) (s : Schema) (e : Entity) 
 
 /-- hence a schema with such a name is rejected by pass 3 -/
 theorem C04_reject_undefined_supertype (path : String) (env : Env) (s : Schema) (e : Entity) (n : String) (l : Nat)
-    (he : Decl.entity e ∈ s.decls) (hs : (n, l) ∈ e.supers) (hn : isEnt env s n = false) :
+    (he : Decl.entity e ∈ s.decls) (hfo : e.foreign = false) (hs : (n, l) ∈ e.supers) (hn : isEnt env s n = false) :
     hasError (pass3 path env s) = true := by
   cases hp : hasError (pass3 path env s) with
   | true => rfl
   | false =>
     have := (hasError_flatMap_false _ _).mp hp (.entity e) he
+    simp only [hfo, Bool.false_eq_true, if_false] at this
     have := ((superSub_noError_iff path env s e).mp this).1 (n, l) hs
     simp [hn] at this
 
 theorem C04_reject_undefined_subtype (path : String) (env : Env) (s : Schema) (e : Entity) (n : String)
-    (he : Decl.entity e ∈ s.decls) (hs : n ∈ e.subs) (hn : isEnt env s n = false) :
+    (he : Decl.entity e ∈ s.decls) (hfo : e.foreign = false) (hs : n ∈ e.subs) (hn : isEnt env s n = false) :
     hasError (pass3 path env s) = true := by
   cases hp : hasError (pass3 path env s) with
   | true => rfl
   | false =>
     have := (hasError_flatMap_false _ _).mp hp (.entity e) he
+    simp only [hfo, Bool.false_eq_true, if_false] at this
     have := ((superSub_noError_iff path env s e).mp this).2 n hs
     simp [hn] at this
 
@@ -494,7 +496,8 @@ theorem C04_schema_error_iff (p : String) (env : Env) (s : Schema)
 /-- **the front end accepts a file ⇔ the text is lexically clean and the file is well formed** (`FileWF`: the four
     statements above over every schema of the run, own file and schema files pulled in alike) -/
 theorem C04_accepts_iff_wellformed (f : File) (lex : List Diag)
-    (hlim : ∀ k, ResolveGen.subsuperDepthLimit = some k → ∀ s ∈ f.schemas, s.decls.length < k) :
+    (hlim : ∀ k, ResolveGen.subsuperDepthLimit = some k →
+      ∀ s ∈ liveSchemas f, (linked f ResolveGen.renameUselistFallback s).decls.length < k) :
     (verdict f lex).rejects = false ↔ hasError lex = false ∧ FileWF f :=
   file_accepts_iff f lex hlim
 
@@ -538,7 +541,8 @@ theorem report_occurred (fwd : Bool) (amb : Ambient) (ov : Overrides)
 theorem C04_exit0_iff_wellformed (tool : Tool) (fwd : Bool) (amb : Ambient) (ov : Overrides) (f : File) (lex : List Diag)
     (henab : ∀ c, isErrorCode c = true → enabled ov c = true)
     (hlex : ∀ d ∈ lex, d.code ≠ LibErrors.SUBORDINATE_FAILED)
-    (hlim : ∀ k, ResolveGen.subsuperDepthLimit = some k → ∀ s ∈ f.schemas, s.decls.length < k) :
+    (hlim : ∀ k, ResolveGen.subsuperDepthLimit = some k →
+      ∀ s ∈ liveSchemas f, (linked f ResolveGen.renameUselistFallback s).decls.length < k) :
     (runMain tool fwd amb ov (verdict f lex).parse (verdict f lex).resolve []).status = some 0 ↔
       hasError lex = false ∧ FileWF f := by
   rw [← file_accepts_iff f lex hlim]
@@ -600,7 +604,8 @@ theorem C04_exit0_iff_wellformed (tool : Tool) (fwd : Bool) (amb : Ambient) (ov 
 theorem C04_command_exit0_iff_wellformed (tool : Tool) (guard fwd : Bool) (amb : Ambient) (sws : List Switch) (ov : Overrides)
     (hc : configure guard sws = .ok ov) (f : File) (lex : List Diag)
     (hlex : ∀ d ∈ lex, d.code ≠ LibErrors.SUBORDINATE_FAILED)
-    (hlim : ∀ k, ResolveGen.subsuperDepthLimit = some k → ∀ s ∈ f.schemas, s.decls.length < k) :
+    (hlim : ∀ k, ResolveGen.subsuperDepthLimit = some k →
+      ∀ s ∈ liveSchemas f, (linked f ResolveGen.renameUselistFallback s).decls.length < k) :
     runCmd tool guard fwd amb sws (verdict f lex).parse (verdict f lex).resolve [] =
       .ran (runMain tool fwd amb ov (verdict f lex).parse (verdict f lex).resolve []) ∧
     ((runMain tool fwd amb ov (verdict f lex).parse (verdict f lex).resolve []).status = some 0 ↔
